@@ -137,6 +137,19 @@ def contents(root):
     return out
 
 
+def csv_in_use(cfgd):
+    """The legacy CSV is what the budget classifies with as long as its settings name no rules file."""
+    import yaml
+    try:
+        for nm in ('settings.yaml', ALT):
+            pth = os.path.join(cfgd, nm)
+            if os.path.exists(pth):
+                return not (yaml.safe_load(open(pth, encoding='utf-8')) or {}).get('merchants_file')
+    except Exception:
+        return False
+    return False
+
+
 def other_filesystem():
     try:
         return os.path.isdir(OTHER_FS) and os.access(OTHER_FS, os.W_OK) and os.stat(OTHER_FS).st_dev != os.stat(tempfile.gettempdir()).st_dev
@@ -168,6 +181,7 @@ def run_injected(root, args, at, mode, log):
     if os.path.exists(log):
         os.unlink(log)
     env = {'VT_INJECT_LOG': log, 'VT_INJECT_ROOT': root, 'PYTHONPATH': os.pathsep.join([INJECT, core.SRC]), 'VT_INJECT_MODE': mode.split(':')[0],
+           'VT_INJECT_WATCH_READS': 'merchant_categories.csv',
            'VT_INJECT_AT': str(at), 'VT_INJECT_FRAC': mode.split(':')[1] if ':' in mode else '0.5'}
     p = B.tally(root, *args, env_extra=env)
     eff = [json.loads(l) for l in open(log)] if os.path.exists(log) else []
@@ -209,6 +223,22 @@ def judge_point(rec, shape, cmd, k, mode, eff_k, baseline, tmp, log):
     o1 = classification(root)
     if o1 == baseline:
         rec.count('classifies_as_before_immediately')
+        # an interrupted migration may have left a converted merchants.rules next to the CSV that is still in use.  The user keeps working
+        # (adds a rule to the CSV) and runs the command again: whatever it does then, the rule added since is in effect afterwards.
+        sp = SHAPES[shape]
+        cfgd = os.path.join(root, 'tally', 'config') if sp['layout'] == 'new' else os.path.join(root, 'config')
+        csvp, rulesp = os.path.join(cfgd, 'merchant_categories.csv'), os.path.join(cfgd, 'merchants.rules')
+        if mode.startswith('crash') and cmd in ('migrate', 'init') and sp['rules'] == 'csv' and not sp.get('stray') and os.path.exists(csvp) and os.path.exists(rulesp) \
+                and 'map' in baseline and baseline['map'].get('SOME UNKNOWN VENDOR') == ['Unknown', 'Unknown'] and csv_in_use(cfgd):
+            with open(csvp, 'a') as f:
+                f.write('SOME UNKNOWN,Added Later,Added,Cat,\n')
+            B.tally(root, *args)
+            o3 = classification(root)
+            want = dict(baseline['map'], **{'SOME UNKNOWN VENDOR': ['Added', 'Cat']})
+            rec.count('rule_added_between_interrupted_and_repeated_run_checks')
+            if o3.get('map') != want:
+                rec.violation('rule-added-after-interruption-not-in-effect:%s/%s' % (cmd, step), f'{shape}: crash at effect {k} ({eff_k}) left a converted merchants.rules beside the CSV '
+                              f'in use; a rule was then added to the CSV and `tally {" ".join(args)}` run again: tally up gives {o3}, expected {want}', case)
         return
     if 'map' in o1 and 'map' in baseline and o1['map'] and all(v == ['Unknown', 'Unknown'] for v in o1['map'].values()) \
             and any(v != ['Unknown', 'Unknown'] for v in baseline['map'].values()):
@@ -230,6 +260,9 @@ def points_for(effects):
     pts = []
     for e in effects:
         k = e['n']
+        if e['kind'] == 'open-r':
+            pts.append((k, 'error', e))          # a read changes nothing on disk: only its failure is a new situation
+            continue
         pts.append((k, 'crash', e))
         if e['kind'] in ('close-w', 'close-a'):
             for frac in ('0.25', '0.5', '0.75', '0.97'):
